@@ -4,11 +4,12 @@ from ..contracts_api import ContractDB
 
 def build_db():
     db = ContractDB()
-    from . import render, html, attrs, children
+    from . import render, html, attrs, children, helpers
     render.register(db)
     html.register(db)
     attrs.register(db)
     children.register(db)
+    helpers.register(db)
     return db
 
 
